@@ -99,6 +99,8 @@ def params_of(vals, P):
     if len(blocs) == 2:
         c0 = V(vals, "coh")
         coh = {blocs[0]: c0, blocs[1]: sub(1, c0)}
+    elif len(blocs) > 2:
+        coh = sup_of(vals, "coh", blocs)
     else:
         coh = {b0: RealFraction(1)}
     return blocs, slates, sup, coh
@@ -526,6 +528,9 @@ def harness_constraints(vars_):
     for n, v in byname.items():
         if n == "coh":
             cs += [v >= 0, v <= 1]
+        elif n.startswith("coh_"):
+            cs += [v >= 0, v <= 1]
+            groups.setdefault("coh", []).append(v)
         elif n.startswith(("s", "pt")) and "_" in n:
             cs += [v >= 0, v <= 1]
             groups.setdefault(n.rsplit("_", 1)[0], []).append(v)
@@ -665,8 +670,10 @@ def tasks(tier, seed):
         for k in ("method", "ballot_length", "num_votes", "apportion_fixed"):
             if k in kw:
                 p[k] = kw.pop(k)
+        extra_task = {k: kw.pop(k) for k in ("budget_s", "max_paths") if k in kw}
         d = {"kind": "call", "module": "props.c16", "func": "run_law", "harness": "c16.sample", "closed_form": cf, "law_label": cf, "params": p,
              "sig_keys": ["cls", "method"], "name": f"law {cls} N={N} { {k: len(v) for k, v in slates.items()} } {p.get('apportion_fixed', '')}", "weight": 10 * N}
+        d.update(extra_task)
         d.update(kw)
         return d
     for N in (1, 2):
@@ -677,6 +684,13 @@ def tasks(tier, seed):
         out.append(t("name_BradleyTerry", "name_bt", S1, N, apportion_fixed=[N, 0]))
         out.append(t("slate_BradleyTerry", "slate_bt", S1, N, apportion_fixed=[N, 0]))
         out.append(t("ImpartialCulture", "impartial_culture", {"X": ["a", "b", "c"] if N == 1 else ["a", "b"]}, N))
+    # three slates: a slate can be used up while two others still have candidates (renormalisation)
+    S3 = {"X": ["x0", "x1"], "Y": ["y0"], "Z": ["z0"]}
+    P3 = {"X": 1.0, "Y": 0.0, "Z": 0.0}
+    out.append(t("slate_PlackettLuce", "slate_pl", S3, 1, apportion_fixed=[1, 0, 0], props=P3, budget_s=900))
+    if not q:
+        out.append(t("slate_PlackettLuce", "slate_pl", {"X": ["x0"], "Y": ["y0", "y1"], "Z": ["z0", "z1"]}, 1, apportion_fixed=[1, 0, 0], props=P3, budget_s=2400))
+        out.append(t("name_PlackettLuce", "name_pl", S3, 1, apportion_fixed=[1, 0, 0], props=P3, budget_s=1200))
     for split in ([1, 0, 0, 0], [0, 1, 0, 0], [2, 0, 0, 0], [1, 1, 0, 0], [0, 2, 0, 0]):
         out.append(t("AlternatingCrossover", "alternating_crossover", S1, sum(split), apportion_fixed=split, props={"X": 1.0, "Y": 0.0}))
     if not q:
